@@ -30,10 +30,27 @@ const (
 	ansEmptyEarlier
 	ansRepeat // the same transactions as the previous non-empty batch
 	ansNilBatch
+	// batch shapes: the CONTENT of a non-empty batch (+1s each)
+	ansZeroFirst // zero-length transaction first
+	ansZeroMid   // ... in the middle
+	ansZeroLast  // ... last
+	ansZeroOnly  // only zero-length transactions (one nil, one empty)
+	ansDupTx     // the same transaction twice in one batch
+	ansOneByte   // a single 1-byte transaction
+	ansLargeTx   // a 64 KiB transaction followed by a small one
 	numAns
 )
 
-var ansNames = [...]string{"fresh+1s", "empty+1s", "absent", "error", "fresh+0", "fresh-1s", "empty+0", "empty-1s", "repeat+1s", "nil-batch"}
+const largeTxSize = 64 << 10
+
+var ansNames = [...]string{"fresh+1s", "empty+1s", "absent", "error", "fresh+0", "fresh-1s", "empty+0", "empty-1s", "repeat+1s", "nil-batch",
+	"zero-len-first+1s", "zero-len-mid+1s", "zero-len-last+1s", "zero-len-only+1s", "dup-tx+1s", "one-byte+1s", "large-tx+1s"}
+
+// shapeTags are the history features of the batch shapes.
+var shapeTags = map[int]string{
+	ansZeroFirst: "batch-with-zero-length-tx", ansZeroMid: "batch-with-zero-length-tx", ansZeroLast: "batch-with-zero-length-tx",
+	ansZeroOnly: "batch-of-only-zero-length-txs", ansDupTx: "duplicate-tx-in-batch", ansOneByte: "one-byte-tx", ansLargeTx: "large-tx",
+}
 
 type event struct {
 	Step int    `json:"step"`
@@ -65,6 +82,7 @@ func body(c *explore.Ctx, steps int) outcome {
 	var lastTxs [][]byte
 	fresh := 0
 	sawEmptyEarlier, sawFreshEarlier, sawExecErr := false, false, false
+	sawShape := map[string]bool{}
 	env.Seq.Next = func(req coreseq.GetNextBatchRequest) world.SeqAnswer {
 		a := ansFresh
 		if !wellFormed {
@@ -85,6 +103,31 @@ func body(c *explore.Ctx, steps int) outcome {
 		newTxs := func() [][]byte {
 			fresh++
 			lastTxs = [][]byte{[]byte(fmt.Sprintf("tx-%d-a", fresh)), []byte(fmt.Sprintf("tx-%d-b", fresh))}
+			return lastTxs
+		}
+		// shaped: a fresh non-empty batch whose content has the given shape (a, b are fresh ordinary transactions)
+		shaped := func(a int) [][]byte {
+			fresh++
+			sawShape[shapeTags[a]] = true
+			ta, tb := []byte(fmt.Sprintf("tx-%d-a", fresh)), []byte(fmt.Sprintf("tx-%d-b", fresh))
+			switch a {
+			case ansZeroFirst:
+				lastTxs = [][]byte{{}, ta, tb}
+			case ansZeroMid:
+				lastTxs = [][]byte{ta, {}, tb}
+			case ansZeroLast:
+				lastTxs = [][]byte{ta, tb, nil}
+			case ansZeroOnly:
+				lastTxs = [][]byte{nil, {}}
+			case ansDupTx:
+				lastTxs = [][]byte{ta, ta}
+			case ansOneByte:
+				lastTxs = [][]byte{{byte(fresh)}}
+			default: // ansLargeTx
+				big := bytes.Repeat([]byte{byte(fresh)}, largeTxSize)
+				copy(big, ta)
+				lastTxs = [][]byte{big, tb}
+			}
 			return lastTxs
 		}
 		switch a {
@@ -111,8 +154,10 @@ func body(c *explore.Ctx, steps int) outcome {
 				return mk(newTxs(), time.Second)
 			}
 			return mk(lastTxs, time.Second)
-		default:
+		case ansNilBatch:
 			return world.SeqAnswer{Kind: "nilbatch", Time: clock.Add(time.Second)}
+		default:
+			return mk(shaped(a), time.Second)
 		}
 	}
 	env.Exec.ExecPolicy = func(h uint64) bool {
@@ -132,18 +177,31 @@ func body(c *explore.Ctx, steps int) outcome {
 		return out
 	}
 	spec := func() world.ChainSpec {
-		var bs [][][]byte
+		// the batch-correspondence clause is checked below by world.CheckBuiltFrom (all batches, empty blocks too)
+		return world.ChainSpec{ChainID: n.P.ChainID, Initial: initial, Proposer: n.Signer}
+	}
+	handed := func() [][][]byte {
+		bs := make([][][]byte, 0, len(env.Seq.HandedOut))
 		for _, a := range env.Seq.HandedOut {
-			if len(a.Txs) > 0 {
-				bs = append(bs, a.Txs)
-			}
+			bs = append(bs, a.Txs)
 		}
-		return world.ChainSpec{ChainID: n.P.ChainID, Initial: initial, Proposer: n.Signer, Batches: bs, CheckBatches: true}
+		return bs
 	}
 	var sb strings.Builder
 	check := func(prevHeight uint64) (uint64, *world.Fail) {
 		h, blocks, f := world.CheckChain(n.OracleStore(), spec())
 		if f != nil {
+			return h, f
+		}
+		// every block (empty ones too) carries exactly the transaction list of the batch it was built from, element by
+		// element, and blocks take batches in hand-out order
+		// (the block at the initial height is the empty block NewManager pre-saves at start-up: it is built from no
+		// batch, so it is exempt as long as it is empty)
+		bb, first := blocks, initial
+		if len(bb) > 0 && len(bb[0].D.Txs) == 0 {
+			bb, first = bb[1:], initial+1
+		}
+		if f := world.CheckBuiltFrom(bb, first, handed()); f != nil {
 			return h, f
 		}
 		if h < prevHeight {
@@ -175,7 +233,7 @@ func body(c *explore.Ctx, steps int) outcome {
 				btx = append(btx, tx)
 			}
 			if !world.TxsEqual(ec.Txs, btx) || !bytes.Equal(ec.Prev, prev) {
-				return h, &world.Fail{Clause: "execution-inputs", Msg: fmt.Sprintf("execution layer was asked to execute height %d with transactions %q / previous root %X, committed block has %q / %X", ec.Height, ec.Txs, ec.Prev, btx, prev)}
+				return h, &world.Fail{Clause: "execution-inputs", Msg: fmt.Sprintf("execution layer was asked to execute height %d with transactions %s / previous root %X, committed block has %s / %X", ec.Height, world.DescribeTxs(ec.Txs), ec.Prev, world.DescribeTxs(btx), prev)}
 			}
 		}
 		return h, nil
@@ -194,6 +252,11 @@ func body(c *explore.Ctx, steps int) outcome {
 		}
 		if initial > 1 {
 			t = append(t, "initial-height>1")
+		}
+		for _, st := range []string{"batch-with-zero-length-tx", "batch-of-only-zero-length-txs", "duplicate-tx-in-batch", "one-byte-tx", "large-tx"} {
+			if sawShape[st] {
+				t = append(t, st)
+			}
 		}
 		return t
 	}
@@ -272,7 +335,8 @@ func TestCheck(t *testing.T) {
 	budgets := vf.Pick(r, map[string]int{"seq": 2, "exec": 1, "restart": 1}, map[string]int{"seq": 3, "exec": 2, "restart": 1})
 	r.Assume = []string{
 		"execution layer double: state root is the hash chain H(prev, txs) (contract-conforming reference)",
-		"sequencing layer double answers from a 10-element menu per call (fresh/empty/absent/error/nil batch, timestamps +1s/0/-1s, repeated transactions)",
+		"sequencing layer double answers from a 17-element menu per call (fresh/empty/absent/error/nil batch, timestamps +1s/0/-1s, repeated transactions; 7 batch-content shapes: zero-length transaction first/middle/last, only zero-length transactions, duplicate transaction in one batch, one 1-byte transaction, a 64 KiB transaction); ordinary transactions are 6-7 bytes",
+		"every block is built from exactly one batch answer of the sequencing layer (no lazy-mode timer blocks in this world), so the batch-correspondence clause is an order-preserving matching of ALL blocks, empty ones included, to the batches handed out, compared element by element (length and bytes; nil and zero-length are the same value)",
 		"'permanently unable' is decided as: 3 well-formed production steps add no block",
 		"datastore contract as in C14",
 	}
@@ -313,8 +377,8 @@ func TestCheck(t *testing.T) {
 	}
 	r.Finish(vf.Coverage{
 		Evaluations: st.Executions, DistinctNontrivial: int64(r.DistinctOutcomes()), States: st.Executions, Transitions: st.Points,
-		Rule:       "every sequence of (sequencing answer from a 10-element menu, execution ok/error, clean restart yes/no) over the production steps within the per-class deviation budgets, initial height 1 and 3, each followed by 3 well-formed steps; distinct = distinct per-step height-growth signatures",
+		Rule:       "every sequence of (sequencing answer from a 17-element menu incl. 7 batch-content shapes [zero-length tx first/middle/last, only zero-length txs, duplicate tx, 1-byte tx, 64 KiB tx], execution ok/error, clean restart yes/no) over the production steps within the per-class deviation budgets, initial height 1 and 3, each followed by 3 well-formed steps; after every step each committed block, empty or not, is matched element by element with the batches handed out; distinct = distinct per-step height-growth signatures",
 		Exhaustive: true, Caps: caps,
-		Bounds:     map[string]any{"steps": steps, "budgets": budgets, "initial_heights": []int{1, 3}, "max_decision_points": st.MaxDepth},
+		Bounds: map[string]any{"steps": steps, "budgets": budgets, "initial_heights": []int{1, 3}, "max_decision_points": st.MaxDepth, "seq_menu": int(numAns), "batch_shapes": 7, "tx_sizes_bytes": []int{0, 1, 6, 7, largeTxSize}, "max_txs_per_batch": 3},
 	})
 }
